@@ -206,6 +206,13 @@ Fixpoint lookup_ks (l : list (N * keyperset)) (eon : N) : option keyperset :=
   | (e, ks) :: r => if (e =? eon)%N then Some ks else lookup_ks r eon
   end.
 
+(* SELECT ... FROM keyper_set WHERE keyper_config_index=$1 *)
+Fixpoint lookup_db (l : list (Z * keyperset)) (idx : Z) : option keyperset :=
+  match l with
+  | [] => None
+  | (i, ks) :: r => if (i =? idx)%Z then Some ks else lookup_db r idx
+  end.
+
 (* for i, k := range keys.Keys { GetEpochSecretKey; VerifyEpochSecretKey; ordering } *)
 Fixpoint an_keys_loop (prev : option bytes) (l : list (bytes * keylabel)) : verdict :=
   match l with
@@ -354,6 +361,12 @@ Section Ideal.
     | v => v
     end.
 
+  (* the same with the database: the keyper_set table as (keyper_config_index, set) rows (the
+     index is the primary key), looked up with `int64(keys.Eon)` *)
+  Definition keyper_validate_gnosis_db (db : list (Z * keyperset)) (m : keysmsg)
+             (signers : list N) (sigs : list sig) : verdict :=
+    keyper_validate_gnosis (lookup_db db (int_of_u64 (m_eon m))) m signers sigs.
+
   (* ----------------------------------------------------------------------------------- *)
   (* gnosisaccessnode.DecryptionKeysHandler *)
 
@@ -386,4 +399,5 @@ Definition csig := sig tuple.
 Definition c_validate_sigs := validate_sigs tuple tuple_eqb (fun t => t).
 Definition c_legacy_validate_sigs := legacy_validate_sigs tuple tuple_eqb (fun t => t).
 Definition c_keyper_validate_gnosis := keyper_validate_gnosis tuple tuple_eqb (fun t => t).
+Definition c_keyper_validate_gnosis_db := keyper_validate_gnosis_db tuple tuple_eqb (fun t => t).
 Definition c_an_validate := an_validate tuple tuple_eqb (fun t => t).
